@@ -64,12 +64,18 @@ def gen(seed, tier="quick"):
         ks = [1000003 * (i + 1) % 99991 + 100000 for i in range(n)]
         src = "fn f() {\n    let mut t = 0\n" + "\n".join(f"    t = t + {k}" for k in ks) + "\n    return t\n}\nprintln(f())"
         add(f"consts-{n}", src, f"{wrap(sum(ks))}\n")
-    for n in [2000, 9000, r.randrange(3000, 8000)] + ([40000] if tier == "thorough" else []):
+    sizes = [2000, 9000, r.randrange(3000, 8000)] + ([40000] if tier == "thorough" else [])
+    for n in sizes:
         body = "\n".join("    t = t + 1" for _ in range(n))
-        add(f"long-loop-body-{n}", f"let mut t = 0\nfor i in 0..3 {{\n{body}\n}}\nprintln(t)", f"{3 * n}\n")
-        add(f"long-while-body-{n}", f"let mut t = 0\nlet mut i = 0\nwhile i < 2 {{\n{body}\n    i = i + 1\n}}\nprintln(t)", f"{2 * n}\n")
-        add(f"long-if-body-{n}", f"let mut t = 0\nlet c = t == 0\nif c {{\n{body}\n}} else {{\n{body}\n    t = t + 5\n}}\nprintln(t)", f"{n}\n")
-        add(f"long-fn-skip-{n}", f"let mut t = 0\nfn big() {{\n{body}\n    return t\n}}\nprintln(1)\nprintln(big())", f"1\n{n}\n")
+        fams = [("long-loop-body", f"let mut t = 0\nfor i in 0..3 {{\n{body}\n}}\nprintln(t)", f"{3 * n}\n"),
+                ("long-while-body", f"let mut t = 0\nlet mut i = 0\nwhile i < 2 {{\n{body}\n    i = i + 1\n}}\nprintln(t)", f"{2 * n}\n"),
+                ("long-if-body", f"let mut t = 0\nlet c = t == 0\nif c {{\n{body}\n}} else {{\n{body}\n    t = t + 5\n}}\nprintln(t)", f"{n}\n"),
+                ("long-fn-skip", f"let mut t = 0\nfn big() {{\n{body}\n    return t\n}}\nprintln(1)\nprintln(big())", f"1\n{n}\n")]
+        if tier == "quick":
+            # one family per size in the quick tier (rotating with the seed); all of them in thorough
+            fams = [fams[(seed + sizes.index(n)) % len(fams)], fams[(seed + sizes.index(n) + 2) % len(fams)]] if n == 9000 else [fams[(seed + sizes.index(n)) % len(fams)]]
+        for nm, src, exp in fams:
+            add(f"{nm}-{n}", src, exp)
     # big literals: arrays / vecs, strings, interpolation with many holes
     for n in around(256) + [1000, 5000]:
         els = [r.randrange(0, 100) for _ in range(n)]
